@@ -64,7 +64,7 @@ AlphabetsDef == [manifest |-> 16, strvals |-> 18, ignore |-> 16, recursion |-> 8
 TokCapDef == [manifest |-> 99, strvals |-> 99, ignore |-> 99, recursion |-> 2, layout |-> 3, crds |-> 3]
 
 DamagesDef == <<"intact", "notbase64", "badgzip", "truncated", "notjson", "jsonlist", "wrongtype", "jsonnull",
-                "emptyobject", "nullinfo", "nullchart">>
+                "emptyobject", "nullinfo", "nullchart", "nokey", "emptyvalue", "onebyte", "twobytes">>
 
 ASSUME JsonSerialize("shapes_consts.json",
          [families |-> AlphabetsDef, damages |-> DamagesDef,
